@@ -146,3 +146,83 @@ def r_last_output_order(ctx):
 def dsid(task, output="0"):
     """A DatasetId as the repo's own constructor would build it (structural equality)."""
     return Obj(DSQ, {"task": task, "output": output}, frozen=True)
+
+
+def users_of(repo, qual: str) -> set:
+    """qualified names of the functions that call *or reference* (e.g. in a dispatch table) the function `qual`."""
+    short = qual.rsplit(".", 1)[-1]
+    out = set()
+    for fi in repo.all_funcs():
+        if fi.qual == qual:
+            continue
+        for n in walk_scope(fi.node):
+            if isinstance(n, ast.Name) and n.id == short and isinstance(n.ctx, ast.Load):
+                if repo.resolve_expr(fi.module, n) == qual:
+                    out.add(fi.qual)
+            elif isinstance(n, ast.Attribute) and n.attr == short and isinstance(n.ctx, ast.Load):
+                q = repo.resolve_expr(fi.module, n)
+                cls = qual.rsplit(".", 1)[0]
+                if q == qual or (q is None and cls in repo.classes):
+                    out.add(fi.qual)
+    # module-level tables referencing it
+    for m in repo.modules.values():
+        for st in m.tree.body:
+            if isinstance(st, (ast.Assign, ast.AnnAssign)) and st.value is not None:
+                for n in ast.walk(st.value):
+                    if isinstance(n, ast.Name) and n.id == short and repo.resolve_expr(m, n) == qual:
+                        out.add(f"{m.name}.<module>")
+    return out
+
+
+def helper_of(repo, qual: str, covered: set, depth: int = 3) -> bool:
+    """True if `qual` is only used (transitively, up to `depth` levels) from functions in `covered` — i.e. it is a helper
+    split off one of them.  Module-level tables count as users of the module's covered functions."""
+    seen = set()
+    todo = [(qual, 0)]
+    while todo:
+        q, d = todo.pop()
+        if q in seen:
+            continue
+        seen.add(q)
+        us = users_of(repo, q)
+        if not us:
+            return False
+        for u in us:
+            if u in covered or u.endswith(".<module>") and any(c.startswith(u[: -len("<module>")]) for c in covered):
+                continue
+            if d + 1 >= depth:
+                return False
+            todo.append((u, d + 1))
+    return True
+
+
+def model_elem(repo, cls_qual: str, field: str, values: tuple):
+    """An element of the container field `cls.field` built the way the code declares it: a NamedTuple / dataclass instance if the
+    annotation names one, else a plain tuple."""
+    from ..terms import NTuple
+    ci, ann = repo.field_ann(cls_qual, field)
+    if ann is not None:
+        for n in ast.walk(ann):
+            if isinstance(n, (ast.Name, ast.Attribute)):
+                q = repo.resolve_expr(ci.module, n)
+                if q in repo.classes and q not in (DSQ, WQ):
+                    c2 = repo.classes[q]
+                    names = [st.target.id for st in c2.node.body if isinstance(st, ast.AnnAssign) and isinstance(st.target, ast.Name)]
+                    if any(b.split(".")[-1] == "NamedTuple" for b in repo.class_mro(q)[1:]) and len(names) == len(values):
+                        return NTuple(values, names, q)
+                    if len(names) == len(values) and any("dataclass" in ast.unparse(d) for d in c2.node.decorator_list):
+                        return Obj(q, dict(zip(names, values)), frozen=True)
+    return tuple(values)
+
+
+def model_coll(repo, cls_qual: str, field: str, items):
+    """An initially populated 'set-like' field in the representation the class declares for it (set, or dict with True values)."""
+    ci, ann = repo.field_ann(cls_qual, field)
+    txt = ast.unparse(ann) if ann is not None else ""
+    if txt.startswith(("dict", "Dict")):
+        return {k: True for k in items}
+    return set(items)
+
+
+def host_entry(repo, sock, addr):
+    return model_elem(repo, "cascade.executor.comms.ReliableSender", "hosts", (sock, addr))
